@@ -51,14 +51,19 @@ struct Encoding<T, EnableIfEnum<T>> : EncodingIO<T> {
   static constexpr Status<void> WritePayload(EncodingByte prefix,
                                              const T& value, Writer* writer) {
     return Encoding<IntegerType>::WritePayload(
-        prefix, reinterpret_cast<const IntegerType&>(value), writer);
+        prefix, static_cast<IntegerType>(value), writer);
   }
 
   template <typename Reader>
   static constexpr Status<void> ReadPayload(EncodingByte prefix, T* value,
                                             Reader* reader) {
-    return Encoding<IntegerType>::ReadPayload(
-        prefix, reinterpret_cast<IntegerType*>(value), reader);
+    IntegerType integer = 0;
+    auto status = Encoding<IntegerType>::ReadPayload(prefix, &integer, reader);
+    if (!status)
+      return status;
+
+    *value = static_cast<T>(integer);
+    return {};
   }
 
  private:
